@@ -34,15 +34,52 @@ class Obligation:
         self.smt_size = 0
         self.expect_refuted = False  # canaries
 
-    def smt2(self, light=False):
+    def smt2(self, light=False, linear_only=False):
         s = z3.Solver()
         heavy = getattr(self, "heavy_ids", ())
         for h in self.hyps:
             if light and h.get_id() in heavy:
                 continue
+            if linear_only and _nonlinear(h):
+                continue
             s.add(h)
         s.add(z3.Not(self.goal))
         return s.to_smt2()
+
+
+_nl_cache = {}
+
+
+def _nonlinear(e):
+    """Does the formula multiply/divide two non-constant terms?  (syntactic)"""
+    k = e.get_id()
+    if k in _nl_cache:
+        return _nl_cache[k]
+    res = False
+    seen = set()
+    stack = [e]
+    while stack:
+        x = stack.pop()
+        i = x.get_id()
+        if i in seen:
+            continue
+        seen.add(i)
+        if z3.is_quantifier(x):
+            stack.append(x.body())
+            continue
+        if z3.is_app(x):
+            kind = x.decl().kind()
+            if kind in (z3.Z3_OP_MUL, z3.Z3_OP_DIV, z3.Z3_OP_IDIV, z3.Z3_OP_MOD, z3.Z3_OP_REM):
+                nonconst = [c for c in x.children() if not (z3.is_int_value(c) or z3.is_rational_value(c))]
+                if kind == z3.Z3_OP_MUL and len(nonconst) >= 2:
+                    res = True
+                    break
+                if kind != z3.Z3_OP_MUL and not (z3.is_int_value(x.arg(1)) or z3.is_rational_value(x.arg(1))):
+                    res = True
+                    break
+            stack.extend(x.children())
+    _nl_cache[k] = res
+    return res
 
 
 _Z3ONLY = re.compile(r"\(lambda |\(_ map |as-array|seq\.|str\.")
@@ -83,11 +120,12 @@ def solve_one(ob, want_second=False):
         return ob
     # a proof from a SUBSET of the hypotheses is a proof: first try without the witness-function axioms
     # (they are rarely needed and can make instantiation explode)
-    if getattr(ob, "text_light", None):
-        res, dt, out = _run(["z3-new", "-T:6"], ob.text_light, 6)
-        if res == "unsat":
-            ob.status, ob.backend, ob.time, ob.output = "proved", "z3-5.1", dt, "[light hypothesis set] unsat"
-            return ob
+    for label, txt in (("light", getattr(ob, "text_light", None)), ("linear", getattr(ob, "text_linear", None))):
+        if txt:
+            res, dt, out = _run(["z3-new", "-T:6"], txt, 6)
+            if res == "unsat":
+                ob.status, ob.backend, ob.time, ob.output = "proved", "z3-5.1", dt, f"[{label} hypothesis subset] unsat"
+                return ob
     backends = [
         ("z3-5.1", ["z3-new", f"-T:{T1}"], T1),
         ("z3-4.8.12", ["/usr/bin/z3", f"-T:{T2}"], T2),
@@ -128,6 +166,9 @@ def solve_all(obs, progress=None):
             ob.text = ob.smt2()  # z3's Python API is not thread-safe: serialise here
             if getattr(ob, "heavy_ids", None) and any(h.get_id() in ob.heavy_ids for h in ob.hyps):
                 ob.text_light = ob.smt2(light=True)
+            if not _nonlinear(ob.goal) and any(_nonlinear(h) for h in ob.hyps):
+                # linear goal: first try without the nonlinear hypotheses (a proof from a subset is a proof)
+                ob.text_linear = ob.smt2(light=True, linear_only=True)
             todo.append(ob)
     with ThreadPoolExecutor(max_workers=POOL) as ex:
         for i, _ in enumerate(ex.map(solve_one, todo)):
